@@ -44,21 +44,41 @@ def entry_points():
     from embit.liquid import addresses as laddr
 
     def walk_view(cls):
+        def att(g):
+            """one stage of the walk: an ordinary exception ends this stage only, so the later stages are still
+            exercised on a stream whose early parts are damaged; anything else (timeout, MemoryError) ends the run"""
+            try:
+                g()
+            except (Timeout, MemoryError, RecursionError):
+                raise
+            except Exception:
+                pass
+
         def f(b):
             v = cls.view(io.BytesIO(b))
-            v.locktime
-            v.tx_version
-            n = min(v.num_inputs, 400)
-            for i in range(n):
-                v.vin(i)
-                v.input(i)
-            for j in range(min(v.num_outputs, 400)):
-                v.vout(j)
-                v.output(j)
-            v.seek_to_scope(min(v.num_inputs + v.num_outputs, 800))
+            att(lambda: v.locktime)
+            att(lambda: v.tx_version)
+
+            def ins():
+                for i in range(min(v.num_inputs, 400)):
+                    v.vin(i)
+                    v.input(i)
+
+            def outs():
+                for j in range(min(v.num_outputs, 400)):
+                    v.vout(j)
+                    v.output(j)
+            att(ins)
+            att(outs)
+            att(lambda: v.seek_to_scope(min(v.num_inputs + v.num_outputs, 800)))
             out = io.BytesIO()
             if v.num_inputs + v.num_outputs <= 800:
-                v.write_to(out)
+                att(lambda: v.write_to(out))
+                # the streaming digests walk the stream again, driven by the counts and length prefixes found in it
+                for name in ("hash_prevouts", "hash_sequence", "hash_outputs", "hash_issuances", "hash_rangeproofs"):
+                    g = getattr(v, name, None)
+                    if g is not None:
+                        att(g)
         return f
 
     class OnlyRead:
